@@ -11,7 +11,7 @@
 (***************************************************************************)
 EXTENDS Pipeline, Json
 
-CONSTANTS Fam       \* template family 1..4
+CONSTANTS Fam       \* template family 1..5
 
 NumLexDef == [t \in {"0","1","2","3","0.5","0.25","4","8", "1e-8"} |->
                 CASE t = "0.5" -> <<1,2>> [] t = "0.25" -> <<1,4>> [] t = "1e-8" -> <<0,1>>
@@ -43,7 +43,11 @@ Fam4 == { Y, A, Bn("add", Y, A), GtC(X, One, One, Two), Bn("mul", Zero, X), Bn("
           Bn("mul", Bn("div", One, N("4")), X), Bn("div", Neg(X), A), Bn("mul", Bn("div", One, A), X),
           Bn("mul", Bn("div", Half, X), Y), Bn("add", One, Bn("div", Half, X)) }
 
+\* piecewise-constant / sawtooth functions of the own state (slope 0 resp. 1 almost everywhere)
+Fam5 == { Bn("sub", A, Fn("floor", X)), Bn("sub", Mod(X, Two), X), Bn("mul", Bn("mul", A, Fn("floor", Bn("div", X, Two))), X),
+          Bn("mul", Neg(Fn("floor", Y)), X), Bn("sub", Mod(Y, Two), X), Bn("mul", Mod(X, N("3")), X), Neg(Bn("mul", Fn("floor", X), X)) }
 Templates(c1) == CASE Fam = 1 -> Fam1(c1)
+                   [] Fam = 5 -> IF c1 = A THEN Fam5 ELSE {}
                    [] Fam = 2 -> Fam2(c1)
                    [] Fam = 3 -> IF c1 = A THEN Fam3 ELSE {}
                    [] Fam = 4 -> IF c1 = A THEN Fam4 ELSE {}
